@@ -56,7 +56,8 @@ def run(tier="quick", seed=0):
             pass
         except Exception as e:     # noqa
             fail("jdumps_rejects_what_json_rejects", {"value": repr(bad)[:80]}, "raised %s instead of TypeError" % type(e).__name__)
-    for text in ("", "{", "[1,", "nul", "{'a': 1}", "[1 2]", "\x00", "{\"a\":}", "é"):
+    for text in ("", "{", "[1,", "nul", "{'a': 1}", "[1 2]", "\x00", "{\"a\":}", "é", "{\"a\": \"x\x01y\"}", "[\"tab\there\"]", "[\"nl\nhere\"]",
+                 "[1,]", "{\"a\": 1,}", "[01]", "[.5]", "[+1]", "// c\n1", "[1] x"):
         n += 1
         try:
             jsonrpclib.jloads(text)
@@ -68,5 +69,5 @@ def run(tier="quick", seed=0):
     return {"kind": "the JSON backend wrappers against the standard library's json on a value corpus: validates the trusted "
                     "json.dumps/json.loads contracts of the proofs on this tree (bounded)",
             "bound": "%d values (scalars, escapes, non-BMP text, nesting, key order, long strings), their compact / non-ASCII / "
-                     "indented texts, 5 unserialisable values, 9 malformed texts" % len(corpus(random.Random(seed), tier)),
+                     "indented texts, 5 unserialisable values, 19 malformed texts (raw control characters in strings, trailing commas, bad numbers, comments)" % len(corpus(random.Random(seed), tier)),
             "evaluations": n, "failures": failures[:40], "failures_total": len(failures)}
